@@ -9,8 +9,8 @@ from props import store_common
 
 PID = 'C08'
 META = {
-    'text': 'Theorems over a hand-written Gallina model of the shelve catalogue (names as code-point lists): construct is injective, every reachable catalogue is a gap-free bijection between names and ids that close/reopen preserves and that never reassigns an id, every primary key resolves through task/algorithm/state vector/value, next() exceeds every stored run id, and subset()/remove() address exactly the entries with the given names (the repaired subset; the pre-fix prefix match is refuted by a witness). Tied to the code by correspondence on generated operation histories over prefix families of names and on the pure util functions. util.construct, util.dissect, util.subset and Version.asstring are in addition regenerated from the python source on every run by a fail-closed translator (Gen/UtilGen.v) and PROVED equal, for all arguments, to the model functions the theorems speak about (C08_construct_is_source, C08_dissect_is_source, C08_subset_is_source): for these three functions the tie to the code is a proof obligation, not a sample.',
-    'note': 'Trusted: Coq kernel; the hand model Catalogue.v/Store.v and the driver drive_store.py (sockets bypassed, as Test/test_07); the canonicalisers. reset()/trace() are modelled and compared, their exactness is checked by the oracle; names are assumed plain (no ":"). No axioms.',
+    'text': 'Theorems over a hand-written Gallina model of the shelve catalogue (names as code-point lists): construct is injective, every reachable catalogue is a gap-free bijection between names and ids that close/reopen preserves and that never reassigns an id, every primary key resolves through task/algorithm/state vector/value, next() exceeds every stored run id, and subset()/remove() address exactly the entries with the given names (the repaired subset; the pre-fix prefix match is refuted by a witness). Tied to the code by correspondence on generated operation histories over prefix families of names and on the pure util functions. util.construct, util.dissect, util.subset and Version.asstring are in addition regenerated from the python source on every run by a fail-closed translator (Gen/UtilGen.v) and PROVED equal, for all arguments, to the model functions the theorems speak about (C08_construct_is_source, C08_dissect_is_source, C08_subset_is_source): for these three functions the tie to the code is a proof obligation, not a sample. Refused writes are inside the model (Model/StoreFault.v, extending Catalogue.v/Store.v): a client call (add, registration, update, load) whose k-th write to one of the five name tables raises OSError while the database process carries on; util.append writes the table first and the in-memory index afterwards, so the refused row is in neither, the rows the call appended before it stay and the call answers with the exception. For every history of such calls (C08_catalogue_inv_faults, C08_ids_never_reassigned_faults) every name table is still a gap-free bijection with the index as its inverse, close/reopen is the identity, ids are never reassigned and every primary key resolves; a refused call changes neither the primary table nor the store (C08_refused_call_keeps_registered); with nothing armed the extended model equals the model (C08_faults_conservative); with the index extended before the table write (the order of seeded change C08-4) the invariant is refuted by a two-call witness (C08_catalogue_inv_faults_refuted). Tie: the same fault histories (a directed sweep over every k for add/registration/update/load plus random ones) run in the model and on the real code and compared after every call (reply, refused or not, primary table, store, staging area, the five indices, the five tables), plus the structural oracle on the implementation own tables.',
+    'note': 'Trusted: Coq kernel; the hand model Catalogue.v/Store.v and the driver drive_store.py (sockets bypassed, as Test/test_07); the canonicalisers. reset()/trace() are modelled and compared, their exactness is checked by the oracle; names are assumed plain (no ":"). A refused write is an OSError raised by shelve.Shelf.__setitem__ before the dbm write (the dbm file is assumed unchanged by a refused write). No axioms.',
     'technique': 'Coq proof over a hand-written model + source-generated definitions proved equal to the model functions (translator validated by a finite sweep) + model/implementation correspondence on generated histories + property oracle on the implementation',
 }
 
